@@ -412,7 +412,7 @@ def r143_r144(P, u, rep, cg, reach_main):
             # ---- R14.4
             if role == 'parent':
                 stt = st['status']
-                if stt is None:
+                if stt is None or (st['children'] > 0 and out[0] == 'ret'):
                     if out[0] == 'ret':
                         rep.ob('R14.4', '%s:%s:child-not-waited-for' % (cu.name, fn), False,
                                'a path returns to the pipeline without having waited for the child: the next stage reads a file the child is still writing, and its failure is never seen',
@@ -510,13 +510,15 @@ def r145(P, u, rep, cg):
                 ended = out[0] == 'noreturn' and out[1] in L.ERROR_FNS and out[3] != e[3]
                 names = sorted(set(x[1] for x in later))
                 ok = not later
-                first = names[0] if names else ''
+                site = L.outer_site(ctx, e)
+                via = (' (through %s(), called at %s:%d)' % (site[0], U, site[1])) if site else ''
+                wh = '%s:%d' % (U, site[1] if site else e[3])
                 rep.ob('R14.5', '%s:cc1:%s' % (U, 'output-opened-after-all-failing-phases' if ok else 'output-%s-opened-before-%s' % (g, '+'.join(names))), ok,
-                       'the output file (`%s`) is created/truncated before %s has returned: a diagnostic raised there ends the process with an empty or clobbered output file left behind for a translation unit that failed to compile'
-                       % (g, ', '.join(names)), where='%s:%d' % (U, e[3]), facts={'path': _fmt_path(ctx), 'events': [x[1] for x in evs]})
+                       'the output file (`%s`%s) is created/truncated before %s has returned: a diagnostic raised there ends the process with an empty or clobbered output file left behind for a translation unit that failed to compile'
+                       % (g, via, ', '.join(names)), where=wh, facts={'path': _fmt_path(ctx), 'events': [x[1] for x in evs]})
                 before = [x[1] for x in evs[:i]]
                 rep.ob('R14.5', '%s:cc1:output-opened-after-preprocess' % U, 'preprocess' in before,
-                       'the output file is opened on a path that has not run the preprocessor yet', where='%s:%d' % (U, e[3]), facts={'events': [x[1] for x in evs]})
+                       'the output file is opened on a path that has not run the preprocessor yet', where=wh, facts={'events': [x[1] for x in evs]})
             if name == 'codegen':
                 n_cg += 1
                 ms = [x for x in evs[:i] if x[1] == 'open_memstream']
